@@ -78,3 +78,17 @@ pub fn tcp_multiaddr_to_socket_address(
         .map(|(address, peer)| (format!("{address:?}"), peer))
         .map_err(|error| format!("{error:?}"))
 }
+
+static KAD_EXECUTOR_TIMEOUT_MS: std::sync::atomic::AtomicU64 = std::sync::atomic::AtomicU64::new(0);
+
+/// Override the Kademlia executor's read/write timeouts (15 s) for every node of this process; 0 restores the default.
+pub fn set_kad_executor_timeout_ms(ms: u64) {
+    KAD_EXECUTOR_TIMEOUT_MS.store(ms, std::sync::atomic::Ordering::SeqCst);
+}
+
+pub(crate) fn kad_executor_timeout() -> Option<std::time::Duration> {
+    match KAD_EXECUTOR_TIMEOUT_MS.load(std::sync::atomic::Ordering::SeqCst) {
+        0 => None,
+        ms => Some(std::time::Duration::from_millis(ms)),
+    }
+}
